@@ -156,8 +156,14 @@ func init() {
 		"(*sync.RWMutex).Unlock":  nop,
 		"(*sync.RWMutex).RLock":   nop,
 		"(*sync.RWMutex).RUnlock": nop,
-		"(*sync.Cond).Broadcast":  nop,
-		"(*sync.Cond).Signal":     nop,
+		"(*sync.Cond).Broadcast":  condWake,
+		"(*sync.Cond).Signal":     condWake,
+		"(*sync.Cond).Wait":       condWait,
+		"runtime.NumCPU": func(w *Worker, _ *ssa.Function, _ []Value, _ ssa.CallInstruction) Value { return w.B.Const(2, 64) },
+		zz + "RunUntilIdle": func(w *Worker, _ *ssa.Function, _ []Value, _ ssa.CallInstruction) Value {
+			w.runUntilIdle()
+			return nil
+		},
 		"(*sync.WaitGroup).Add":   nop,
 		"(*sync.WaitGroup).Done":  nop,
 		"(*sync.WaitGroup).Wait":  nop,
@@ -262,7 +268,7 @@ func init() {
 	for _, n := range []string{"Assert", "Reach", "Observe", "CfgInt", "CfgBool", "CfgStr", "Symbolic"} {
 		intrinsicMergeSafe[zz+n] = true
 	}
-	for _, n := range []string{"Byte", "Bool", "Int", "Int16", "Int32", "Uint16", "Uint32", "Uint64", "Byte7", "Below", "Choose", "Assume"} {
+	for _, n := range []string{"Byte", "Bool", "Int", "Int16", "Int32", "Uint16", "Uint32", "Uint64", "Byte7", "Below", "Choose", "Assume", "RunUntilIdle"} {
 		intrinsicMergeSafe[zz+n] = false
 	}
 	// natively lifted pure functions over small domains
